@@ -88,6 +88,19 @@ impl SubCheck for DtDur {
                     ensure_eq!(z.offset().local_minus_utc(), c.off, "DateTime::{name} keeps the offset");
                     let zo = call("DateTime operator", || if neg { za - td } else { za + td })?;
                     ensure_eq!(zo, z, "DateTime operator form of {name}");
+                    let mut zx = za;
+                    call("DateTime op-assign", || if neg { zx -= td } else { zx += td })?;
+                    ensure_eq!(zx, z, "DateTime assign form of {name}");
+                    if d >= 0 {
+                        let sd = td.to_std().map_err(|_| "harness: to_std")?;
+                        ensure_eq!(call("DateTime std Duration operator", || if neg { za - sd } else { za + sd })?, z, "DateTime std::time::Duration form of {name}");
+                        let mut zy = za;
+                        call("DateTime std Duration op-assign", || if neg { zy -= sd } else { zy += sd })?;
+                        ensure_eq!(zy, z, "DateTime std::time::Duration assign form of {name}");
+                        let mut ny = a;
+                        call("NaiveDateTime std Duration op-assign", || if neg { ny -= sd } else { ny += sd })?;
+                        ensure_eq!(ny, r, "NaiveDateTime std::time::Duration assign form of {name}");
+                    }
                     // distance back
                     let back = call("signed_duration_since", || r.signed_duration_since(a))?;
                     ensure_eq!(conv::td_ns(&back), exact - t, "signed_duration_since after {name}");
@@ -160,6 +173,10 @@ impl SubCheck for DtPair {
         let zb_a = fa.from_utc_datetime(&b);
         ensure_eq!(call("DateTime Sub", || za - zb_a)?, d, "zone-aware a - b operator");
         ensure_eq!(call("DateTime Sub ref", || za - &zb_a)?, d, "zone-aware a - &b operator");
+        // the same operators with *different* offsets on the two operands
+        ensure_eq!(call("DateTime Sub", || za - zb)?, d, "zone-aware a - b operator, offsets {} / {}", c.oa, c.ob);
+        ensure_eq!(call("DateTime Sub ref", || za - &zb)?, d, "zone-aware a - &b operator, offsets {} / {}", c.oa, c.ob);
+        ensure_eq!(call("DateTime Sub ref", || zb - &za)?, -d, "zone-aware b - &a operator, offsets {} / {}", c.ob, c.oa);
         ensure_eq!(za.cmp(&zb.with_timezone(&fa)), diff.cmp(&0), "zone-aware order");
         ensure_eq!(za.partial_cmp(&zb), Some(diff.cmp(&0)), "zone-aware order across offsets");
         let r = call("DateTime checked_add_signed", || zb.checked_add_signed(d))?;
@@ -208,6 +225,12 @@ impl SubCheck for DateDays {
                     ensure_eq!(conv::unix_day_of(r) as i128, exact, "{name}(day {z}, {n})");
                     crate::props::c01::check_fields(&r, exact as i64)?;
                     ensure_eq!(call("Days operator", || if sign > 0 { d + Days::new(n) } else { d - Days::new(n) })?, r, "operator form of {name}");
+                    // the date-time wrappers keep the time of day
+                    let tod = chrono::NaiveTime::from_num_seconds_from_midnight_opt((z.rem_euclid(86_400)) as u32, (n % 1_000_000_000) as u32).ok_or("harness: time")?;
+                    let nd = d.and_time(tod);
+                    let rn = call("NaiveDateTime::checked_*_days", || if sign > 0 { nd.checked_add_days(Days::new(n)) } else { nd.checked_sub_days(Days::new(n)) })?;
+                    ensure_eq!(rn, Some(r.and_time(tod)), "NaiveDateTime::{name}");
+                    ensure_eq!(call("NaiveDateTime Days operator", || if sign > 0 { nd + Days::new(n) } else { nd - Days::new(n) })?, r.and_time(tod), "NaiveDateTime operator form of {name}");
                 }
                 None => {
                     ensure!(!ok, "{name}(day {z}, {n}) = None although day {exact} is representable");
